@@ -589,3 +589,132 @@ M2('c01-table-reset-helper-called-after-generation', 'C01', 'R5', [
             "        ast_root = self._ast\n        self._reset_compiled_state()\n        self._ast = ast_root\n"},
     {'file': F, 'old': "    def _instantiate_converter(\n", 'new': RESET_HELPER + "    def _instantiate_converter(\n"}], also=('C19',))
 # negative control (exit 0): k2-c19-2 (the block moved verbatim into the helper, called once before _generate_ast)
+
+# ----------------------------------------------------------------------
+# wave k3 (behaviour-preserving patches): for every repaired false alarm / unread shape a "refactoring + break" operator --
+# the rewrite the rule now reads (silent on its own, see the negative controls in DESIGN 7.x / the fixer report) combined with a break.
+# guard level held in a local + level - 1
+M2('c01-guard-level-local-minus-one', 'C01', 'R4', [
+    {'file': 'falcon/routing/compiled.py',
+     'old': "        outer_parent = _CxIfPathLength('>', level)\n",
+     'new': "        guard_level = level - 1\n        outer_parent = _CxIfPathLength('>', guard_level)\n"},
+])
+# path index held in a local + level + 1
+M2('c01-index-local-next-level', 'C01', 'R4', [
+    {'file': 'falcon/routing/compiled.py',
+     'old': '                        params_stack.append(_CxSetParamFromPath(field_name, level))\n',
+     'new': '                        idx = level + 1\n                        params_stack.append(_CxSetParamFromPath(field_name, idx))\n'},
+])
+# finder header hoisted into a module constant + two table parameters swapped
+M2('c01-header-constant-swapped-params', 'C01', 'R5', [
+    {'file': 'falcon/routing/compiled.py',
+     'old': "        src_lines = [\n            'def find(path, return_values, patterns, converters, params):',\n",
+     'new': '        src_lines = [\n            _FIND_HEADER,\n'},
+    {'file': 'falcon/routing/compiled.py',
+     'old': '_NO_CHILDREN_ERR = (',
+     'new': "_FIND_HEADER = 'def find(path, patterns, return_values, converters, params):'\n\n_NO_CHILDREN_ERR = ("},
+])
+# validation loop extracted into _validate_template(path) + called after the insertion
+M2('c01-validate-helper-called-after-insert', 'C01', 'R1', [
+    {'file': 'falcon/routing/compiled.py',
+     'old': '        used_names: Set[str] = set()\n        for segment in path:\n            self._validate_template_segment(segment, used_names)\n',
+     'new': ''},
+    {'file': 'falcon/routing/compiled.py',
+     'old': '        insert(self._roots)\n',
+     'new': '        insert(self._roots)\n        self._validate_template(path)\n'},
+    {'file': 'falcon/routing/compiled.py',
+     'old': '    def _validate_template_segment(self, segment: str, used_names: Set[str]) -> None:',
+     'new': '    def _validate_template(self, path: List[str]) -> None:\n        used_names: Set[str] = set()\n        for segment in path:\n            self._validate_template_segment(segment, used_names)\n\n    def _validate_template_segment(self, segment: str, used_names: Set[str]) -> None:'},
+])
+# payload stores extracted into nested bind(node) + uri_template forgotten
+M2('c01-bind-helper-partial-payload', 'C01', 'R17', [
+    {'file': 'falcon/routing/compiled.py',
+     'old': '        def insert(nodes: List[CompiledRouterNode], path_index: int = 0) -> None:',
+     'new': '        def bind(node: CompiledRouterNode) -> None:\n            node.method_map = method_map\n            node.resource = resource\n\n        def insert(nodes: List[CompiledRouterNode], path_index: int = 0) -> None:'},
+    {'file': 'falcon/routing/compiled.py',
+     'old': '                        node.method_map = method_map\n                        node.resource = resource\n                        node.uri_template = uri_template\n',
+     'new': '                        bind(node)\n'},
+    {'file': 'falcon/routing/compiled.py',
+     'old': '                new_node.method_map = method_map\n                new_node.resource = resource\n                new_node.uri_template = uri_template\n',
+     'new': '                bind(new_node)\n'},
+])
+# substituted template held in a local + the check only looks for a blank
+M2('c01-whitespace-alias-space-only', 'C01', 'R9', [
+    {'file': 'falcon/routing/compiled.py',
+     'old': "        if re.search(r'\\s', _FIELD_PATTERN.sub('{FIELD}', uri_template)):\n            raise UnacceptableRouteError('URI templates may not include whitespace.')\n\n        path = uri_template",
+     'new': "        without_fields = _FIELD_PATTERN.sub('{FIELD}', uri_template)\n        if re.search(r' ', without_fields):\n            raise UnacceptableRouteError('URI templates may not include whitespace.')\n\n        path = uri_template"},
+    {'file': 'falcon/routing/compiled.py',
+     'old': "        if re.search(r'\\s', _FIELD_PATTERN.sub('{FIELD}', segment)):\n            raise UnacceptableRouteError('URI templates may not include whitespace.')\n\n        for field in",
+     'new': '        for field in'},
+])
+# emission loop extracted into _emit_params(target, stack) + emitted into the wrong block
+M2('c01-emit-helper-wrong-receiver', 'C01', 'R3', [
+    {'file': 'falcon/routing/compiled.py',
+     'old': "                    cx_path_len = _CxIfPathLength('==', level + 1)\n                    for params in params_stack:\n                        cx_path_len.append_child(params)\n                    cx_path_len.append_child(_CxReturnValue(resource_idx))\n",
+     'new': "                    cx_path_len = _CxIfPathLength('==', level + 1)\n                    self._emit_params(parent, params_stack)\n                    cx_path_len.append_child(_CxReturnValue(resource_idx))\n"},
+    {'file': 'falcon/routing/compiled.py',
+     'old': '                    for params in params_stack:\n                        parent.append_child(params)\n                    parent.append_child(_CxReturnValue(resource_idx))\n',
+     'new': '                    self._emit_params(parent, params_stack)\n                    parent.append_child(_CxReturnValue(resource_idx))\n'},
+    {'file': 'falcon/routing/compiled.py',
+     'old': '    def _generate_conversion_ast(\n',
+     'new': '    def _emit_params(self, target: _CxParent, params_stack: List[_CxElement]) -> None:\n        for params in params_stack:\n            target.append_child(params)\n\n    def _generate_conversion_ast(\n'},
+])
+# emission helper + one route return without its parameter assignments
+M2('c01-emit-helper-one-site-missing', 'C01', 'R3', [
+    {'file': 'falcon/routing/compiled.py',
+     'old': "                    cx_path_len = _CxIfPathLength('==', level + 1)\n                    for params in params_stack:\n                        cx_path_len.append_child(params)\n                    cx_path_len.append_child(_CxReturnValue(resource_idx))\n",
+     'new': "                    cx_path_len = _CxIfPathLength('==', level + 1)\n                    cx_path_len.append_child(_CxReturnValue(resource_idx))\n"},
+    {'file': 'falcon/routing/compiled.py',
+     'old': '                    for params in params_stack:\n                        parent.append_child(params)\n                    parent.append_child(_CxReturnValue(resource_idx))\n',
+     'new': '                    self._emit_params(parent, params_stack)\n                    parent.append_child(_CxReturnValue(resource_idx))\n'},
+    {'file': 'falcon/routing/compiled.py',
+     'old': '    def _generate_conversion_ast(\n',
+     'new': '    def _emit_params(self, target: _CxParent, params_stack: List[_CxElement]) -> None:\n        for params in params_stack:\n            target.append_child(params)\n\n    def _generate_conversion_ast(\n'},
+])
+# tables held in locals of _compile + the generator fills a list the router does not keep
+M2('c01-compile-table-local-not-stored', 'C01', 'R5', [
+    {'file': 'falcon/routing/compiled.py',
+     'old': '        self._return_values = []\n        self._patterns = []\n        self._converters = []\n\n        self._ast = _CxParent()\n        self._generate_ast(\n            self._roots, self._ast, self._return_values, self._patterns, params_stack=[]\n        )\n',
+     'new': '        return_values: List[CompiledRouterNode] = []\n        patterns: List[Pattern] = []\n        self._return_values = []\n        self._patterns = patterns\n        self._converters = []\n\n        self._ast = _CxParent()\n        self._generate_ast(\n            self._roots, self._ast, return_values, patterns, params_stack=[]\n        )\n'},
+])
+# tables held in locals of _compile + handed to the generator in swapped order
+M2('c01-compile-table-locals-swapped', 'C01', 'R5', [
+    {'file': 'falcon/routing/compiled.py',
+     'old': '        self._return_values = []\n        self._patterns = []\n        self._converters = []\n\n        self._ast = _CxParent()\n        self._generate_ast(\n            self._roots, self._ast, self._return_values, self._patterns, params_stack=[]\n        )\n',
+     'new': '        return_values: List[CompiledRouterNode] = []\n        patterns: List[Pattern] = []\n        self._return_values = return_values\n        self._patterns = patterns\n        self._converters = []\n\n        self._ast = _CxParent()\n        self._generate_ast(\n            self._roots, self._ast, patterns, return_values, params_stack=[]\n        )\n'},
+])
+# find() reads method_map through a local + the override path of insert() no longer stores it
+M2('c01-find-local-payload-drops-method-map', 'C01', 'R17', [
+    {'file': 'falcon/routing/compiled.py',
+     'old': '        if node is not None:\n            return node.resource, node.method_map or {}, params, node.uri_template\n        else:\n            return None\n',
+     'new': '        if node is not None:\n            method_map = node.method_map or {}\n            return node.resource, method_map, params, node.uri_template\n        else:\n            return None\n'},
+    {'file': 'falcon/routing/compiled.py',
+     'old': '                        node.method_map = method_map\n                        node.resource = resource\n                        node.uri_template = uri_template\n',
+     'new': '                        node.resource = resource\n                        node.uri_template = uri_template\n'},
+])
+# negative controls (exit 0, tried on scratch copies): `next_level = level + 1` handed to _CxIfPathLength; the header literal as a module
+# constant; _validate_template(path) extracted (called before the insertion); nested bind(node) storing all three fields;
+# `without_fields = _FIELD_PATTERN.sub(...)` tested by re.search(r'\s', without_fields); _emit_params(target, stack) at both sites;
+# `return_values = []; self._return_values = return_values` handed to the generator; `method_map = node.method_map or {}` in find()
+
+# wave k3, second round of pre-emptive rewrites (refactoring + break)
+# try/finally with an `inserted` flag instead of except/raise + the flag test inverted (undo on success, none on rejection)
+M2('c01-undo-flag-inverted', 'C01', 'R1', [
+    {'file': 'falcon/routing/compiled.py',
+     'old': '                try:\n                    insert(new_node.children, path_index + 1)\n                except UnacceptableRouteError:\n                    # NOTE: A deeper segment was rejected; do not leave the\n                    #   half-inserted branch behind, otherwise the rejected\n                    #   template would keep affecting later routes and lookups.\n                    nodes.remove(new_node)\n                    raise\n',
+     'new': '                inserted = False\n                try:\n                    insert(new_node.children, path_index + 1)\n                    inserted = True\n                finally:\n                    if inserted:\n                        nodes.remove(new_node)\n'},
+])
+# %-format template + the literal rendered as '%s' instead of %r
+M2('c01-percent-template-literal-unquoted', 'C01', 'R9', [
+    {'file': 'falcon/routing/compiled.py',
+     'old': "        template = '{0}if path[{1}] == {2!r}:\\n{3}'\n        return template.format(\n            _TAB_STR * indentation,\n            self._segment_idx,\n            self._literal,\n            self._children_src(indentation + 1),\n        )\n",
+     'new': '        return "%sif path[%d] == \'%s\':\\n%s" % (\n            _TAB_STR * indentation,\n            self._segment_idx,\n            self._literal,\n            self._children_src(indentation + 1),\n        )\n'},
+])
+# generate = self._generate_ast bound-method alias + tables handed over in swapped order
+M2('c01-generate-alias-tables-swapped', 'C01', 'R5', [
+    {'file': 'falcon/routing/compiled.py',
+     'old': '        self._generate_ast(\n            self._roots, self._ast, self._return_values, self._patterns, params_stack=[]\n        )\n',
+     'new': '        generate = self._generate_ast\n        generate(\n            self._roots, self._ast, self._patterns, self._return_values, params_stack=[]\n        )\n'},
+])
+# negative controls (exit 0): the undo written as `inserted = False; try: insert(..); inserted = True; finally: if not inserted: nodes.remove(new_node)`;
+# a src() template written with % and %r for the literal; `generate = self._generate_ast; generate(...)` with the tables in order
